@@ -100,7 +100,7 @@ func (f *fatalT) Logf(format string, args ...interface{})   { f.t.Logf(format, a
 // same function both times is reported as a violation (the process exits; replay is by seed);
 // anything else is harness trouble (exit 2), never a verdict.
 func hangWatchdog(id string, done chan struct{}) {
-	hangAfter := time.Duration(envInt("VERIF_HANG_AFTER_S", 240)) * time.Second
+	hangAfter := time.Duration(envInt("VERIF_HANG_AFTER_S", 900)) * time.Second
 	select {
 	case <-done:
 		return
